@@ -49,15 +49,142 @@ var collKinds = []string{"key", "key", "key", "key", "key", "key", "key", "key",
 	"byron", "byron", "script", "script", "unresolved", "nopay", "niloutput"}
 
 var byronAttrChoices = [][]byte{
-	{0xa0},                                     // {}
+	{0xa0}, // {}
 	{0xa1, 0x02, 0x45, 0x1a, 0x41, 0x70, 0xcb, 0x17}, // {2: h'1a4170cb17'} network magic
-	{0xa1, 0x01, 0x43, 0x42, 0x01, 0x02},       // {1: h'420102'} derivation path payload
+	{0xa1, 0x01, 0x43, 0x42, 0x01, 0x02},             // {1: h'420102'} derivation path payload
 }
 
 var perturbKinds = []string{"drop-vkey", "drop-vkey", "drop-boot", "extra-vkey", "extra-boot", "wrong-key", "wrong-key",
 	"corrupt-sig", "corrupt-sig", "corrupt-boot-sig", "other-txid", "sig-over-reencoded-body", "sig-over-body-bytes", "dup-vkey",
 	"pk-sig-swap", "short-pk", "short-sig", "long-sig", "boot-wrong-cc", "boot-wrong-attrs", "boot-cc-31", "boot-as-vkey",
-	"boot-short-pk", "boot-short-sig", "drop-all", "dup-wits-key", "same-key-bad-first", "same-key-bad-last"}
+	"boot-short-pk", "boot-short-sig", "drop-all", "dup-wits-key", "same-key-bad-first", "same-key-bad-last",
+	"boot-attr-last-byte", "boot-attr-append-zero", "boot-empty-attrs", "boot-cc-last-byte"}
+
+// byronAttrLens: lengths of the encoded attributes map; 1 = {} and the others
+// {1: bytes(len-3 or len-4 payload bytes)} (34 = the Daedalus HD-payload shape)
+var byronAttrLens = []int{1, 31, 32, 33, 34, 64, 100}
+
+// byronAttrsOfLen builds a well-formed Byron attributes map of exactly n bytes.
+func byronAttrsOfLen(r *vh.Rng, n int) []byte {
+	if n <= 1 {
+		return []byte{0xa0}
+	}
+	if n < 27 {
+		return append([]byte{0xa1, 0x01, 0x40 | byte(n-3)}, r.Bytes(n-3)...)
+	}
+	return append([]byte{0xa1, 0x01, 0x58, byte(n - 4)}, r.Bytes(n-4)...)
+}
+
+func randByronAttrs(r *vh.Rng) []byte {
+	if r.Bool() {
+		return vh.PickOne(r, byronAttrChoices)
+	}
+	return byronAttrsOfLen(r, vh.PickOne(r, byronAttrLens))
+}
+
+// nearWitness returns a bootstrap witness (unsigned) that differs from
+// (pk, cc, attrs) in exactly the way `diff` names.
+func nearWitness(pk, cc, attrs []byte, diff string) (npk, ncc, nat []byte) {
+	cp := func(b []byte) []byte { return append([]byte{}, b...) }
+	npk, ncc, nat = cp(pk), cp(cc), cp(attrs)
+	switch diff {
+	case "same":
+	case "attr-last":
+		nat[len(nat)-1] ^= 0xff
+	case "attr-last2":
+		nat[len(nat)-1] ^= 0x0f
+		if len(nat) > 1 {
+			nat[len(nat)-2] ^= 0xf0
+		}
+	case "attr-append-zero":
+		nat = append(nat, 0)
+	case "attr-empty":
+		nat = nil
+	case "cc-last":
+		ncc[31] ^= 0x01
+	case "pk-last":
+		npk[31] ^= 0x01
+	default:
+		panic("harness: unknown witness difference " + diff)
+	}
+	return
+}
+
+var nearDiffs = []string{"attr-last", "attr-last2", "attr-append-zero", "attr-empty", "cc-last", "pk-last", "same"}
+
+// byronPair: tx1 spends a Byron UTxO of address A with the legitimate bootstrap
+// witness; tx2 spends ANOTHER UTxO of the same address with a correctly signed
+// bootstrap witness that differs as `diff` says (so, unless diff = same, no
+// supplied witness derives A's root).  forward: tx1 then tx2; else tx2 then tx1.
+// The second transaction carries the first as its History.
+func byronPair(r *vh.Rng, e *eraT, attrLen int, diff string, forward bool) []txCase {
+	k := newKey(r)
+	cc := r.Bytes(32)
+	attrs := byronAttrsOfLen(r, attrLen)
+	root := byronRootSpec(k.pub, cc, attrs)
+	addr := vh.Hex(addrByron(root, attrs, 0))
+	mk := func(pk, wcc, wat []byte, what string) txCase {
+		p := &planT{era: e, isValid: true, setTag: e.SetTag && r.Bool()}
+		ref := inRef{r.Bytes(32), uint32(r.Intn(4))}
+		p.inputs = []inRef{ref}
+		utxo := []utxoEnt{{TxId: vh.Hex(ref.TxId), Idx: ref.Idx, Kind: "addr", Addr: addr}}
+		var vks []vkwT
+		if r.Chance(1, 3) {
+			// plus an ordinary key-locked input with its witness
+			k2 := newKey(r)
+			ref2 := inRef{r.Bytes(32), uint32(r.Intn(4))}
+			p.inputs = append(p.inputs, ref2)
+			utxo = append(utxo, utxoEnt{TxId: vh.Hex(ref2.TxId), Idx: ref2.Idx, Kind: "addr", Addr: vh.Hex(addrKey(r, k2.hash))})
+			body := p.body(r)
+			txid := h256(body.Enc())
+			vks = append(vks, vkwT{k2.pub, sign(k2, txid)})
+			bws := []bwT{{pk, sign(k, txid), wcc, wat}}
+			return txCase{Era: e.Name, Tx: vh.Hex(envelope(e, body, witnessSet(p.setTag, vks, bws), true)), Utxo: utxo, Label: what}
+		}
+		body := p.body(r)
+		txid := h256(body.Enc())
+		bws := []bwT{{pk, sign(k, txid), wcc, wat}}
+		return txCase{Era: e.Name, Tx: vh.Hex(envelope(e, body, witnessSet(p.setTag, nil, bws), true)), Utxo: utxo, Label: what}
+	}
+	lbl := fmt.Sprintf("history byron attrs=%d diff=%s", attrLen, diff)
+	legit := mk(k.pub, cc, attrs, lbl+" legitimate")
+	npk, ncc, nat := nearWitness(k.pub, cc, attrs, diff)
+	near := mk(npk, ncc, nat, lbl+" near-collision")
+	if forward {
+		near.Label += " after-legitimate"
+		near.History = []txCase{legit}
+		return []txCase{legit, near}
+	}
+	legit.Label += " after-near-collision"
+	legit.History = []txCase{near}
+	return []txCase{near, legit}
+}
+
+// byronHistories: quick = every attribute length with attr-last forward, plus a
+// random selection of the other (length, difference, order) combinations;
+// thorough = all combinations.
+func byronHistories(r *vh.Rng, e *eraT, thorough bool) []txCase {
+	var out []txCase
+	if thorough {
+		for _, n := range byronAttrLens {
+			for _, d := range nearDiffs {
+				out = append(out, byronPair(r, e, n, d, true)...)
+				out = append(out, byronPair(r, e, n, d, false)...)
+			}
+		}
+		return out
+	}
+	for _, n := range byronAttrLens {
+		out = append(out, byronPair(r, e, n, "attr-last", true)...)
+	}
+	for i := 0; i < 3; i++ {
+		out = append(out, byronPair(r, e, vh.PickOne(r, byronAttrLens), vh.PickOne(r, []string{"attr-last", "attr-last2", "attr-append-zero"}), false)...)
+	}
+	for i := 0; i < 5; i++ {
+		out = append(out, byronPair(r, e, vh.PickOne(r, byronAttrLens), vh.PickOne(r, nearDiffs[1:]), true)...)
+	}
+	return out
+}
 
 func sign(k *keyT, msg []byte) []byte { return ed25519.Sign(k.priv, msg) }
 
@@ -90,7 +217,7 @@ func genWith(r *vh.Rng, e *eraT, o genOpts) txCase {
 		case "byron":
 			k := keys[r.Intn(4)]
 			cc := r.Bytes(32)
-			at := vh.PickOne(r, byronAttrChoices)
+			at := randByronAttrs(r)
 			ent.Addr = vh.Hex(addrByron(byronRootSpec(k.pub, cc, at), at, 0))
 			needs = append(needs, needT{byron: true, key: k, cc: cc, attrs: at})
 		case "script":
@@ -447,6 +574,15 @@ func genWith(r *vh.Rng, e *eraT, o genOpts) txCase {
 			} else {
 				bws[i].Attrs = []byte{0xa0}
 			}
+		case "boot-attr-last-byte", "boot-attr-append-zero", "boot-empty-attrs", "boot-cc-last-byte":
+			if len(bws) == 0 {
+				applied = false
+				break
+			}
+			i := r.Intn(len(bws))
+			d := map[string]string{"boot-attr-last-byte": "attr-last", "boot-attr-append-zero": "attr-append-zero",
+				"boot-empty-attrs": "attr-empty", "boot-cc-last-byte": "cc-last"}[pt]
+			_, bws[i].CC, bws[i].Attrs = nearWitness(bws[i].Pk, bws[i].CC, bws[i].Attrs, d)
 		case "boot-cc-31":
 			if len(bws) == 0 {
 				applied = false
